@@ -408,7 +408,7 @@ impl Engine {
                 // No property says which well-formed configurations must be accepted, so a tree that refuses
                 // this one is not in violation; the run cannot proceed and is set aside (the explorer turns a
                 // majority of such runs into a harness error).
-                self.v("NOBOOT", "valid_instantiate_refused", format!("instantiate failed: {}", r.err));
+                self.v("SETASIDE", "valid_instantiate_refused", format!("instantiate failed: {}", r.err));
             }
             return;
         }
@@ -824,7 +824,7 @@ impl Engine {
                     .iter()
                     .filter_map(|e| match e {
                         // with an oracle configured: the posts it received; with none: any post at all
-                        Effect::OraclePost { msg, contract, .. } if self.m.cfg.oracle.is_none() || Some(contract) == self.m.cfg.oracle.as_ref() => Some(msg.clone()),
+                        Effect::OraclePost { msg, contract, .. } if self.m.cfg.oracle.is_none() || Some(contract.clone()) == self.m.cfg.oracle.as_ref().map(|o| o.to_lowercase()) => Some(msg.clone()),
                         _ => None,
                     })
                     .collect();
